@@ -725,11 +725,21 @@ impl Gen {
     /// Statement-level bodies. Each hole runs over `pool[type]`; other holes take small leaves.
     pub fn statement_bodies(&self, pool: &BTreeMap<Ty, Vec<Expr>>) -> Vec<(Ty, Vec<Stmt>)> {
         let mut out: Vec<(Ty, Vec<Stmt>)> = Vec::new();
+        self.statement_bodies_stream(pool, false, &mut |t, b| out.push((t, b)));
+        out
+    }
+
+    /// Streaming form; with `first_only` the non-pool holes take only their first small leaf.
+    pub fn statement_bodies_stream(&self, pool: &BTreeMap<Ty, Vec<Expr>>, first_only: bool, sink: &mut dyn FnMut(Ty, Vec<Stmt>)) {
         let hole = |t: Ty, is_pool: bool| -> Vec<Expr> {
             if is_pool {
                 pool.get(&t).cloned().unwrap_or_default()
             } else {
-                small_leaves(t)
+                let mut l = small_leaves(t);
+                if first_only {
+                    l.truncate(1);
+                }
+                l
             }
         };
         // templates: (hole types, builder)
@@ -859,10 +869,9 @@ impl Gen {
         for (ret, holes, build) in &templates {
             for pos in 0..holes.len() {
                 let lists: Vec<Vec<Expr>> = holes.iter().enumerate().map(|(k, t)| hole(*t, k == pos)).collect();
-                self.combos(&lists, &mut |args| out.push((*ret, build(&self.names, args))));
+                self.combos(&lists, &mut |args| sink(*ret, build(&self.names, args)));
             }
         }
-        out
     }
 }
 
